@@ -9,12 +9,12 @@ from vf.spec import INDEX_KINDS, build, make_frame, short
 from vf.userdefs import FUNCTIONS
 from vf.zoo import anomaliser
 
-SHARDS = {"quick": 6, "thorough": 16}
+SHARDS = {"quick": 16, "thorough": 16}
 WATCHDOG = {"quick": 1800, "thorough": 7200}
 CASES = {"quick": 150, "thorough": 2000}
 FLOORS = {
-    "quick": {"distinct_nontrivial": 250, "segments_checked": 2000, "cases_with_adjacent_flagged": 150,
-              "cases[ScriptedChangeDetector]": 100, "cases[PELT]": 100, "wrapped_untouched_checks": 400},
+    "quick": {"distinct_nontrivial": 670, "segments_checked": 4500, "cases_with_adjacent_flagged": 570,
+              "cases[ScriptedChangeDetector]": 250, "cases[PELT]": 230, "wrapped_untouched_checks": 940},
     "thorough": {"distinct_nontrivial": 4000, "segments_checked": 50000},
 }
 ANCHORS = [
